@@ -377,47 +377,48 @@ func R28() Rule {
 		if nCtor < 3 {
 			c.Unknown("R28", "floor/constructors", token.NoPos, "only %d Family/Column constructions found", nCtor)
 		}
-		// appendOrReplaceCell replaces on equal timestamp and appends only otherwise
+		// appendOrReplaceCell replaces on equal timestamp and appends only otherwise.  Structural
+		// necessary conditions (independent of how the search is written — flag, index helper, …):
+		// the timestamps of an existing cell and the new one are compared for equality somewhere in
+		// the function or a helper it uses; the new cell is stored over an existing element; and the
+		// append is conditional (some path through the function avoids it).
 		if ar := P.Func(core.PkgBttest, "appendOrReplaceCell"); ar != nil {
-			var eq *ssa.BinOp
-			for _, b := range ar.Blocks {
-				for _, in := range b.Instrs {
-					if bin, ok := in.(*ssa.BinOp); ok && bin.Op == token.EQL && isCellTs(bin.X) && isCellTs(bin.Y) {
-						eq = bin
-					}
-				}
-			}
-			ok := false
-			if eq != nil {
-				// the append must not be reachable along the equal-timestamp edge without a guard
-				var ifEq *ssa.If
-				for _, r := range core.Referrers(eq) {
-					if i, isIf := r.(*ssa.If); isIf {
-						ifEq = i
-					}
-				}
-				for _, b := range ar.Blocks {
+			scope := P.Scope(ar, func(f *ssa.Function) bool { return core.PkgPathOf(f) != core.PkgBttest })
+			hasEq, hasReplace, appendConditional, nAppend := false, false, true, 0
+			for _, f := range scope {
+				for _, b := range f.Blocks {
 					for _, in := range b.Instrs {
-						call, isCall := in.(*ssa.Call)
-						if !isCall {
-							continue
-						}
-						if bi, isB := call.Call.Value.(*ssa.Builtin); !isB || bi.Name() != "append" {
-							continue
-						}
-						// append is guarded by a flag that is true on the equal edge
-						for _, f := range core.FactsAt(b) {
-							if phi, isPhi := core.Resolve(f.Cond).(*ssa.Phi); isPhi && !f.Polarity && ifEq != nil {
-								for i, e := range phi.Edges {
-									if bv, isB := core.ConstBool(e); isB && bv && ifEq.Block().Succs[0].Dominates(phi.Block().Preds[i]) {
-										ok = true
+						switch x := in.(type) {
+						case *ssa.BinOp:
+							if x.Op == token.EQL && P.AllOrigins(x.X, nil, isCellTs) && P.AllOrigins(x.Y, nil, isCellTs) {
+								hasEq = true
+							}
+						case *ssa.Store:
+							if _, isElem := x.Addr.(*ssa.IndexAddr); isElem && P.AllOrigins(x.Val, setOf(scope), func(o ssa.Value) bool {
+								pa, isP := o.(*ssa.Parameter)
+								return isP && pa.Parent() == ar
+							}) {
+								hasReplace = true
+							}
+						case *ssa.Call:
+							if bi, isB := x.Call.Value.(*ssa.Builtin); isB && bi.Name() == "append" && f == ar {
+								nAppend++
+								// conditional: the append's block does not lie on every path to a return
+								onEvery := true
+								for _, r := range returnsIn(ar) {
+									if r.Block() != b && !b.Dominates(r.Block()) {
+										onEvery = false
 									}
+								}
+								if onEvery {
+									appendConditional = false
 								}
 							}
 						}
 					}
 				}
 			}
+			ok := hasEq && hasReplace && appendConditional && nAppend >= 1
 			c.Check(ok, "R28", "c/appendOrReplaceCell-unique-timestamp", ar.Pos(), "a cell with an equal timestamp is replaced in place; append happens only when none was found", "appendOrReplaceCell can append a second cell with the same timestamp (one cell per timestamp is lost)")
 		}
 	}}
